@@ -363,7 +363,11 @@ async fn run(lines: Vec<String>, prop: String, out: &mut Out) {
 		match w[0] {
 			"case" => {
 				let cfg = EnvCfg { max_req: w[3].parse().unwrap(), max_resp: w[4].parse().unwrap(), batch: parse_batch(w[5]), max_subs: 1024 };
-				case = Some(Case { env: Env::new(cfg), ws: None });
+				// every third case runs on the low-level assembly (ws::connect + http::call_with_service_builder)
+				let n: u64 = w[1].parse().unwrap_or(0);
+				let assembly = if n % 3 == 2 { Assembly::LowLevel } else { Assembly::Tower };
+				out.count(if assembly == Assembly::LowLevel { "assembly.lowlevel" } else { "assembly.tower" });
+				case = Some(Case { env: Env::with_assembly(cfg, assembly), ws: None });
 				out.line(line.clone(), "case".into(), Ok(()), false);
 			}
 			"msg" | "ws" => {
